@@ -62,7 +62,7 @@ def proof_stage(rep, prop, imports, obligations, general_theorems, atoms_expr=No
     failed_atoms = []
     n_atoms = 0
     # the lake lock is taken inside lake_build; Gen/Data must be built before lean_eval
-    ok0, log0 = common.lake_build(["O1722.Gen.Data"] + [i for i in imports if i.startswith("O1722.Props")])
+    ok0, log0 = common.lake_build(sorted(set(["O1722.Gen.Data"] + list(imports))))
     if not ok0:
         raise ToolError("Gen/Data.lean or Props do not build:\n" + log0[-3000:])
     if atoms_expr:
